@@ -98,6 +98,24 @@ Theorem c13_stats_independent :
 Proof. exact C13.ProofsSched.stats_independent. Qed.
 Print Assumptions c13_stats_independent.
 
+(* ... and the rendered "modules" array of print_json (loaded_symbols, missing_symbols, corrupt_symbols per
+   module, looked up under the leaf name) is the same for all finishing schedules, and equals a function
+   of the configuration alone *)
+Theorem c13_modules_json_independent :
+  forall (c : C12.Model.config) (s1 s2 : list C12.Model.task) (mods : list C12.Model.key),
+  C13.Sched.leaf_injective c ->
+  C12.Model.all_done c (C12.Model.run c s1) = true -> C12.Model.all_done c (C12.Model.run c s2) = true ->
+  C13.Sched.render_modules c s1 mods = C13.Sched.render_modules c s2 mods.
+Proof. exact C13.ProofsSched.render_modules_independent. Qed.
+Print Assumptions c13_modules_json_independent.
+
+Theorem c13_modules_json_determined :
+  forall (c : C12.Model.config) (sched : list C12.Model.task) (mods : list C12.Model.key),
+  C13.Sched.leaf_injective c -> C12.Model.all_done c (C12.Model.run c sched) = true ->
+  C13.Sched.render_modules c sched mods = C13.Sched.modules_spec c mods.
+Proof. exact C13.ProofsSched.render_modules_spec. Qed.
+Print Assumptions c13_modules_json_determined.
+
 (* F-C13c: without "distinct module keys have distinct leaf names" the last completion wins *)
 Theorem c13_stats_refuted :
   exists (c : C12.Model.config) (s1 s2 : list C12.Model.task) (leafname : nat),
